@@ -521,4 +521,15 @@ PROPS['C12']['units'] += _LINES
 PROPS['C12']['proved_part'] += ('; line/structure level of the text formats (texts opaque): iter_cxt_lines yields exactly the documented line sequence, Cxt.dumpf prints each line once in order, '
                                 'Cxt.loadf slices objects / properties / rows at y and x and decodes the rows; table dump_file (widths, header, one line per object with X/blank cells) and '
                                 'load_file (comment stripping, header, partition per line, transposition); wiki-table dump_file (header, three lines per object, footer)')
+_CSVPL = ['formats.csv.dumpf', 'formats.csv.loadf', 'lemma.csv.roundtrip', 'formats.python_literal.load_file',
+          'formats.python_literal.dump_file.fresh', 'formats.python_literal.dump_file.serialized']
+PROPS['C12']['units'] += _CSVPL
+PROPS['C12']['proved_part'] += ('; csv at ROW level: Csv.dumpf hands tools.write_csv_file the header [object_header] + properties and one row [object] + symbols per object; Csv.loadf decodes '
+                                'header and rows (symbol table given or detected on the first data row, False-table first; ValueError / KeyError cases); lemma.csv.roundtrip: loadf of the rows '
+                                'dumpf wrote (cells through str()) returns the given (objects, properties, bools) for both symbol sets and for auto-detection; python-literal: load_file builds the '
+                                'cell matrix bools[r][i] <-> i in context[r], dump_file builds the index form and writes the sections in order')
+PROPS['C12']['bounded_part'] = ('the characters: str.partition/strip/split, %-padding, print, io.StringIO newline translation, the C csv module (quoting, dialects), repr / ast.literal_eval, codecs -- '
+                                'round trips and independent reference readers/writers over the stated table sizes, label alphabets (incl. long lines), encodings and dialects')
+PROPS['C11']['units'] += ['formats.python_literal.load_file', 'formats.python_literal.dump_file.fresh', 'formats.python_literal.dump_file.serialized']
+PROPS['C11']['proved_part'] += '; the python-literal file form: load_file (cell matrix from the index form) and dump_file (index form, section order) at structure level'
 NOT_APPLICABLE = {}
